@@ -14,10 +14,17 @@
   A  summary_fee, summary_totals, summary_partition, summary_outputs, summary_single_change
   B  change_commits_by_hash, change_is_plain_multisig, change_keys_perm, change_one_key_per_cosigner,
      change_is_wallet_multisig (the three together, repaired configuration)
-  C  describe_refuses_invalid_output / _input (lifting), tamper_* (one per catalogue item)
-  D  F11a_witness, F11e_witness (the defects with the repair flags off), F11g_witness (open observation)
+  C  describe_refuses_invalid_output / _input (lifting), tamper_* (one per catalogue item; the two shapes of
+     finding F11g — found while stating these theorems, repaired by work/C11/fix-F11g.diff — are
+     tamper_witness_script_without_witness_utxo and tamper_redeem_on_non_p2sh),
+     input_utxo_matches, input_script_commits, input_script_details, input_keys_derive
+     (what a summarised input satisfied; input_script_commits is the input-side change_commits_by_hash)
+  D  F11a_witness, F11e_witness (the defects with the repair flags off)
+  E  input_value_is_utxo_amount (the amounts the arithmetic of A sums are those of the UTXO records
+     PSBT.parse read and PSBTIn.validate tied to the transaction; Buidl.Proofs.PsbtValue)
 -/
 import Buidl.Proofs.PsbtDescribe
+import Buidl.Proofs.PsbtValue
 namespace Buidl.Props.C11
 open Buidl Buidl.Psbt Buidl.Script
 
@@ -188,7 +195,7 @@ theorem change_keys_perm {Tx} (cfg : DescribeCfg) (H : Hashes) (C : TxCodec Tx) 
     omega
   exact ⟨script, c0, keys, hq, hcmds, hperm, hperm.nodup_iff.mpr hdict⟩
 
-example : DNodup Toy.changeMap.namedPubs := by decide
+example : DNodup Toy.changeMap.namedPubs := by unfold DNodup; decide
 
 /-- B.3  (F11a repaired) Every named pubkey is the key its cosigner's xpub — looked up in the map by the
     path's fingerprint — derives at the stated path; there are `n` named pubkeys, `n` map entries, and the
@@ -420,7 +427,7 @@ theorem tamper_witness_utxo_on_legacy {Tx} (cfg : DescribeCfg) (H : Hashes) (C :
   obtain ⟨spk', h1, _, h3, _⟩ := validateIn_witness hpo hv
   rw [hspk] at h1
   cases h1
-  have := h3 r hr
+  have := (h3 r hr).1
   simp [hsh, hnw] at this
 
 /-- altered previous transaction: the attached non-witness UTXO does not hash to the outpoint -/
@@ -614,13 +621,193 @@ theorem tamper_second_change {Tx} (cfg : DescribeCfg) (H : Hashes) (C : TxCodec 
     exact hj ((summary_single_change cfg H C O cm p s h).1 j1 j2 _ _ hd1 hd2
       (by simp [outDescOf, hne1]) (by simp [outDescOf, hne2]))
 
+/-- foreign WitnessScript next to a non-witness UTXO only (finding F11g, first shape; repaired): unless the
+    scriptPubKey being spent is the P2WSH of the WitnessScript's sha256, refused.  Before the repair the
+    non-witness branch of `PSBTIn.validate` never looked at the WitnessScript, and `describe` read the
+    inputs' quorum off it. -/
+theorem tamper_witness_script_without_witness_utxo {Tx} (cfg : DescribeCfg) (H : Hashes) (C : TxCodec Tx)
+    (O : Oracles) (cm : Dict Bytes) (p : Psbt Tx) (i : Nat) (txin : TxInV) (pin : PIn Tx) (ws : Script)
+    (ht : (C.ins p.tx)[i]? = some txin) (hp : p.ins[i]? = some pin)
+    (hpo : pin.prevOut = none) (hw : pin.witnessScript = some ws)
+    (hbad : ¬∃ spk, pin.scriptPubkey C txin = some (some spk) ∧ isP2wsh spk = true ∧
+      spk.cmds[1]? = scriptSha256 H ws) :
+    describe cfg H C O cm p = none := by
+  apply describe_refuses_invalid_input cfg H C O cm p i txin pin ht hp
+  apply eq_none_of_not_some
+  intro hv
+  obtain ⟨spk, h1, h2, h3, _⟩ := validateIn_legacy_witness hpo hw hv
+  exact hbad ⟨spk, h1, h2, h3⟩
+
+/-- a RedeemScript next to a witness UTXO whose scriptPubKey is not P2SH (finding F11g, second shape;
+    repaired).  Before the repair the witness branch ignored such a RedeemScript, and `describe` read the
+    inputs' quorum off it. -/
+theorem tamper_redeem_on_non_p2sh {Tx} (cfg : DescribeCfg) (H : Hashes) (C : TxCodec Tx)
+    (O : Oracles) (cm : Dict Bytes) (p : Psbt Tx) (i : Nat) (txin : TxInV) (pin : PIn Tx)
+    (wutxo : TxOutV) (spk r : Script)
+    (ht : (C.ins p.tx)[i]? = some txin) (hp : p.ins[i]? = some pin)
+    (hpo : pin.prevOut = some wutxo) (hr : pin.redeem = some r)
+    (hspk : pin.scriptPubkey C txin = some (some spk)) (hbad : isP2sh spk = false) :
+    describe cfg H C O cm p = none := by
+  apply describe_refuses_invalid_input cfg H C O cm p i txin pin ht hp
+  apply eq_none_of_not_some
+  intro hv
+  obtain ⟨spk', h1, _, h3, _⟩ := validateIn_witness hpo hv
+  rw [hspk] at h1
+  cases h1
+  have := (h3 r hr).2
+  rw [hbad] at this
+  cases this
+
+/-! ### what every summarised input satisfied (the positive form of the input items above) -/
+
+/-- the UTXO records of a summarised input match the transaction: the non-witness UTXO hashes to the
+    outpoint and has the output spent; a witness UTXO given together with it is that very output; and the
+    input has a recorded amount (the one `totalIn` adds up, see `summary_totals`) -/
+theorem input_utxo_matches {Tx} (cfg : DescribeCfg) (H : Hashes) (C : TxCodec Tx) (O : Oracles) (cm : Dict Bytes)
+    (p : Psbt Tx) (s : Summary) (h : describe cfg H C O cm p = some s)
+    (i : Nat) (txin : TxInV) (pin : PIn Tx)
+    (ht : (C.ins p.tx)[i]? = some txin) (hp : p.ins[i]? = some pin) :
+    (∀ t, pin.prevTx = some t → C.hash t = some txin.prevTx ∧ txin.prevIndex < (C.outs t).length) ∧
+    (∀ t wutxo, pin.prevTx = some t → pin.prevOut = some wutxo →
+      ∃ utxo, (C.outs t)[txin.prevIndex]? = some utxo ∧ utxo.amount = wutxo.amount ∧
+        utxo.spk.cmds = wutxo.spk.cmds) ∧
+    ∃ sats, pin.value = some sats := by
+  have hok := describe_input_at h ht hp
+  exact ⟨fun t hpt => validateIn_prevTx hpt hok.valid,
+    fun t wutxo hpt hpo => validateIn_both_utxos hpt hpo hok.valid, hok.value⟩
+
+/-- the input-side analogue of `change_commits_by_hash` (F11f, F11g repaired): the script `describe` read
+    the quorum from is committed to *by hash* by the scriptPubKey being spent (`PSBTIn.script_pubkey()`:
+    the outpoint's output of the non-witness UTXO, whose hash is the outpoint's txid, or the witness UTXO) —
+    a WitnessScript under P2WSH, a RedeemScript (non-witness UTXO only) under P2SH.  So an input whose
+    redeem or witness script does not match the transaction is never summarised. -/
+theorem input_script_commits {Tx} (cfg : DescribeCfg) (H : Hashes) (C : TxCodec Tx) (O : Oracles) (cm : Dict Bytes)
+    (p : Psbt Tx) (s : Summary) (h : describe cfg H C O cm p = some s)
+    (i : Nat) (txin : TxInV) (pin : PIn Tx)
+    (ht : (C.ins p.tx)[i]? = some txin) (hp : p.ins[i]? = some pin) :
+    ∃ script raw spk, scriptQuorum pin.witnessScript pin.redeem = some (script, s.m, s.n) ∧
+      rawOf script = some raw ∧ pin.scriptPubkey C txin = some (some spk) ∧
+      ((pin.witnessScript = some script ∧ pin.redeem = none ∧ spk.cmds = [.op 0, .push (H.sha256 raw)]) ∨
+       (pin.witnessScript = none ∧ pin.redeem = some script ∧ pin.prevOut = none ∧
+          spk.cmds = [.op 0xA9, .push (H.hash160 raw), .op 0x87])) := by
+  have hok := describe_input_at h ht hp
+  obtain ⟨script, m, n, raw, hq, hm, hn, hraw⟩ := hok.quorum
+  cases hm
+  cases hn
+  obtain ⟨hwhich, hlast, _⟩ := scriptQuorum_some hq
+  have hnb := hok.notBoth
+  rcases hwhich with hw | ⟨hw, hr⟩
+  · have hr : pin.redeem = none := by
+      cases hr : pin.redeem with
+      | none => rfl
+      | some r => simp [hw, hr] at hnb
+    have key : ∃ spk, pin.scriptPubkey C txin = some (some spk) ∧ isP2wsh spk = true ∧
+        spk.cmds[1]? = scriptSha256 H script := by
+      cases hpo : pin.prevOut with
+      | none =>
+        obtain ⟨spk, h1, h2, h3, _⟩ := validateIn_legacy_witness hpo hw hok.valid
+        exact ⟨spk, h1, h2, h3⟩
+      | some wutxo =>
+        obtain ⟨spk, h1, _, _, h4⟩ := validateIn_witness hpo hok.valid
+        obtain ⟨h5, _, _, _⟩ := h4 script hw
+        obtain ⟨h6, h7⟩ := h5 hr
+        rw [← scriptPubkey_cmds_of_prevOut hok.valid hpo h1] at h7
+        exact ⟨spk, h1, h6, h7⟩
+    obtain ⟨spk, h1, h2, h3⟩ := key
+    obtain ⟨b, hcmds, _⟩ := (isP2wsh_iff spk).mp h2
+    refine ⟨script, raw, spk, hq, hraw, h1, Or.inl ⟨hw, hr, ?_⟩⟩
+    rw [hcmds] at h3 ⊢
+    simp [scriptSha256, hraw] at h3
+    rw [h3]
+  · cases hpo : pin.prevOut with
+    | none =>
+      obtain ⟨spk, h1, h2, _, h3, _, _⟩ := validateIn_legacy_redeem hpo hr hok.valid
+      obtain ⟨b, hcmds, _⟩ := (isP2sh_iff spk).mp h2
+      refine ⟨script, raw, spk, hq, hraw, h1, Or.inr ⟨hw, hr, rfl, ?_⟩⟩
+      rw [hcmds] at h3 ⊢
+      simp [scriptHash160, hraw] at h3
+      rw [h3]
+    | some wutxo =>
+      -- witness UTXO + RedeemScript: the scriptPubKey must be p2sh (F11g), then the RedeemScript a witness
+      -- program (F11f) — which a script ending in OP_CHECKMULTISIG is not
+      exfalso
+      obtain ⟨spk, _, _, h3, _⟩ := validateIn_witness hpo hok.valid
+      obtain ⟨h4, h5⟩ := h3 script hr
+      have := not_witnessProgram_of_last_op hlast
+      simp [h5, this] at h4
+
+/-- further facts about the scripts of a summarised input: exactly one of WitnessScript / RedeemScript is
+    attached (so a P2SH-P2WSH input is never summarised), and — in the RedeemScript case and in the
+    WitnessScript-with-witness-UTXO case — the named pubkeys occur in the script.  (For a WitnessScript next
+    to a non-witness UTXO only, `PSBTIn.validate` does not look the named pubkeys up in the script; their
+    derivations are still verified, see `input_keys_derive`.) -/
+theorem input_script_details {Tx} (cfg : DescribeCfg) (H : Hashes) (C : TxCodec Tx) (O : Oracles) (cm : Dict Bytes)
+    (p : Psbt Tx) (s : Summary) (h : describe cfg H C O cm p = some s)
+    (i : Nat) (txin : TxInV) (pin : PIn Tx)
+    (ht : (C.ins p.tx)[i]? = some txin) (hp : p.ins[i]? = some pin) :
+    (pin.witnessScript = none ∨ pin.redeem = none) ∧
+    (pin.prevOut = none → ∀ r, pin.redeem = some r → namedInScript pin.namedPubs r = true) ∧
+    (∀ wutxo, pin.prevOut = some wutxo → ∀ ws, pin.witnessScript = some ws →
+      namedInScript pin.namedPubs ws = true) := by
+  have hok := describe_input_at h ht hp
+  have hnb : pin.witnessScript = none ∨ pin.redeem = none := by
+    have := hok.notBoth
+    cases hw : pin.witnessScript with
+    | none => exact Or.inl rfl
+    | some w =>
+      cases hr : pin.redeem with
+      | none => exact Or.inr rfl
+      | some r => simp [hw, hr] at this
+  refine ⟨hnb, ?_, ?_⟩
+  · intro hpo r hr
+    obtain ⟨spk, _, _, _, _, _, h5⟩ := validateIn_legacy_redeem hpo hr hok.valid
+    exact h5
+  · intro wutxo hpo ws hw
+    obtain ⟨spk, _, _, _, h4⟩ := validateIn_witness hpo hok.valid
+    exact (h4 ws hw).2.2.2
+
+/-- the keys and quorum of a summarised input: as many named pubkeys as the map has cosigners, each the
+    key its cosigner's xpub derives at the stated path; the script's quorum is the summary's `(m, n)`, its
+    serialisation exists, and `n` is the number of cosigners -/
+theorem input_keys_derive {Tx} (cfg : DescribeCfg) (H : Hashes) (C : TxCodec Tx) (O : Oracles) (cm : Dict Bytes)
+    (p : Psbt Tx) (s : Summary) (h : describe cfg H C O cm p = some s)
+    (i : Nat) (txin : TxInV) (pin : PIn Tx)
+    (ht : (C.ins p.tx)[i]? = some txin) (hp : p.ins[i]? = some pin) :
+    (hmapOf cm p).length = pin.namedPubs.length ∧ s.n = ((hmapOf cm p).length : Int) ∧
+    (∃ script raw, scriptQuorum pin.witnessScript pin.redeem = some (script, s.m, s.n) ∧
+      rawOf script = some raw) ∧
+    (∀ sec rawPath, (sec, rawPath) ∈ pin.namedPubs →
+      ∃ body, dget (hmapOf cm p) (rawPath.take Gen.psbtFingerprintWidth) = some body ∧
+        deriveAt O body rawPath = some sec) := by
+  have hok := describe_input_at h ht hp
+  obtain ⟨script, m, n, raw, hq, hm, hn, hraw⟩ := hok.quorum
+  cases hm
+  cases hn
+  obtain ⟨xfps, hx⟩ := hok.named
+  exact ⟨hok.nNamed, describe_n h, ⟨script, raw, hq, hraw⟩, (checkNamedPubs_some hx).2⟩
+
+/-- an input with both a WitnessScript and a RedeemScript (P2SH-P2WSH) is never summarised -/
+theorem tamper_both_scripts_input {Tx} (cfg : DescribeCfg) (H : Hashes) (C : TxCodec Tx) (O : Oracles)
+    (cm : Dict Bytes) (p : Psbt Tx) (i : Nat) (txin : TxInV) (pin : PIn Tx) (ws r : Script)
+    (ht : (C.ins p.tx)[i]? = some txin) (hp : p.ins[i]? = some pin)
+    (hw : pin.witnessScript = some ws) (hr : pin.redeem = some r) :
+    describe cfg H C O cm p = none := by
+  cases h : describe cfg H C O cm p with
+  | none => rfl
+  | some s =>
+    have := (describe_input_at h ht hp).notBoth
+    simp [hw, hr] at this
+
+example : (Toy.codec.ins Toy.psbt.tx)[0]? = some Toy.txin ∧ Toy.psbt.ins[0]? = some Toy.pin :=
+  ⟨by decide, rfl⟩
+
 /-! ### the hypotheses of the `tamper_*` theorems are satisfiable
 
 Each theorem's hypotheses are equations about fields of the PSBT plus one (in)equation describing the
 tampering; below, most of them are instantiated on variants of the toy PSBT `Toy.psbt` (an honest 1-of-2
 P2WSH spend, summarised above), by applying the theorem itself.  The remaining ones
 (`tamper_foreign_input_script`, `tamper_foreign_output_witness_script`, `..._p2sh_p2wsh`,
-`tamper_witness_utxo_on_legacy`, `tamper_prev_tx`, `tamper_missing_utxo`, `tamper_*_input`,
+`tamper_witness_utxo_on_legacy`, `tamper_prev_tx`, `tamper_missing_utxo`, `tamper_both_scripts_input`, `tamper_*_input`,
 `tamper_foreign_fingerprint_*`) have hypotheses of the same shape. -/
 
 example : describe .repaired Toy.hashes Toy.codec Toy.oracles Toy.cmap Toy.psbtSwapped = none :=
@@ -693,7 +880,26 @@ example : describe .repaired Toy.hashes Toy.codec Toy.oracles Toy.cmap Toy.psbtW
     (Toy.body1 ++ [7]) (Toy.fp1 ++ [6, 0, 0, 0]) Toy.body1
     (by decide) (by decide) (by decide) (by decide) (by decide)
 
-/-! ## D. the defects, with the repair flags off; an open observation -/
+example : describe .repaired Toy.hashes Toy.codec Toy.oracles Toy.cmap Toy.psbtUnchecked = none :=
+  tamper_witness_script_without_witness_utxo _ _ _ _ _ _ 0 Toy.txin Toy.pinUnchecked (Toy.walletScript 5)
+    (by decide) rfl rfl rfl
+    (by
+      rintro ⟨spk, h1, _, h3⟩
+      have h0 : Toy.pinUnchecked.scriptPubkey Toy.codec Toy.txin =
+          some (some (Toy.p2wshOf { cmds := [.op 82, .push (Toy.body1 ++ [5]), .push (Toy.body2 ++ [5]), .op 82, .op 174] })) := by
+        decide
+      rw [h0] at h1
+      cases h1
+      revert h3; decide)
+
+example : describe .repaired Toy.hashes Toy.codec Toy.oracles Toy.cmap Toy.psbtUnchecked2 = none :=
+  tamper_redeem_on_non_p2sh _ _ _ _ _ _ 0 Toy.txin Toy.pinUnchecked2
+    { amount := 100, spk := Toy.p2wshOf { cmds := [.op 82, .push (Toy.body1 ++ [5]), .push (Toy.body2 ++ [5]), .op 82, .op 174] } }
+    (Toy.p2wshOf { cmds := [.op 82, .push (Toy.body1 ++ [5]), .push (Toy.body2 ++ [5]), .op 82, .op 174] })
+    (Toy.walletScript 5)
+    (by decide) rfl rfl rfl (by decide) (by decide)
+
+/-! ## D. the defects, with the repair flags off -/
 
 /-- F11a: without the fingerprint test, a change script made of two keys of ONE cosigner (each with that
     cosigner's fingerprint and a valid path) is labelled change — conclusion B.3 fails. -/
@@ -723,28 +929,18 @@ theorem F11e_witness :
             rootPaths := [([1, 1, 1, 1], [1, 1, 1, 1, 5, 0, 0, 0]), ([2, 2, 2, 2], [2, 2, 2, 2, 5, 0, 0, 0])] },
     { sats := 60, isChange := true }, by decide, by decide, by decide, by decide, by decide⟩
 
-/-- Observation (candidate finding "F11g", NOT repaired, reproduced by the model of the repaired code):
-    `PSBTIn.validate` looks at the WitnessScript only in its witness-UTXO branch.  On an input that carries
-    only the non-witness UTXO (allowed, and common, for segwit inputs) the attached WitnessScript is never
-    compared with the scriptPubKey being spent — validation does not depend on it at all. -/
-theorem F11g_witness_validate {Tx} (H : Hashes) (C : TxCodec Tx) (txin : TxInV) (pin : PIn Tx) (ws : Option Script)
-    (hpo : pin.prevOut = none) :
-    validateIn H C txin { pin with witnessScript := ws } = validateIn H C txin pin := by
-  unfold validateIn PIn.scriptPubkey
-  simp only [hpo]
+/-! ## E. the amounts summed are the amounts of the outputs being spent -/
 
-/-- … and `describe` then takes the inputs' quorum from that unchecked script: here the UTXO being spent
-    is the P2WSH of a 2-of-2 script, the attached WitnessScript is a 1-of-2 script, and the summary says
-    1-of-2 (so a 1-of-2 change script is accepted). -/
-theorem F11g_witness_describe :
-    ∃ s utxo ws, describe .repaired Toy.hashes Toy.codec Toy.oracles Toy.cmap Toy.psbtUnchecked = some s ∧
-      s.m = 1 ∧ s.n = 2 ∧
-      (Toy.codec.outs Toy.prevT22)[Toy.txin.prevIndex]? = some utxo ∧
-      Toy.pinUnchecked.witnessScript = some ws ∧ utxo.spk.cmds[1]? ≠ scriptSha256 Toy.hashes ws := by
-  refine ⟨{ fee := 10, totalIn := 100, totalOut := 90, spend := 30, change := 60, isBatch := false, m := 1, n := 2,
-            inputs := [{ m := 1, n := 2, sats := 100 }],
-            outputs := [{ sats := 60, isChange := true }, { sats := 30, isChange := false }],
-            rootPaths := [([1, 1, 1, 1], [1, 1, 1, 1, 5, 0, 0, 0]), ([2, 2, 2, 2], [2, 2, 2, 2, 5, 0, 0, 0])] },
-    _, _, by decide, rfl, rfl, rfl, rfl, by decide⟩
+/-- For an input map produced by PSBTIn.parse from ANY bytes and accepted by PSBTIn.validate, the
+    recorded value (what `summary_totals` sums, `tx_in._value` in the code) is: with a non-witness UTXO,
+    the amount of the previous transaction's output the input spends (whose hash `input_utxo_matches`
+    ties to the outpoint) — also when a witness UTXO is present as well (finding F11d, repaired: the two
+    must agree); otherwise the amount of the witness UTXO (which segwit signatures commit to). -/
+theorem input_value_is_utxo_amount {Tx : Type} (H : Hashes) (C : TxCodec Tx) (O : Oracles) (net : Option Net)
+    (txin : TxInV) (s : Bytes) (p : PIn Tx) (rest : Bytes)
+    (hp : parseInMap C O net txin.prevIndex s = some (p, rest)) (hv : validateIn H C txin p = some ()) :
+    (∀ t, p.prevTx = some t → ∃ o, (C.outs t)[txin.prevIndex]? = some o ∧ p.value = some o.amount) ∧
+    (∀ o, p.prevTx = none → p.prevOut = some o → p.value = some o.amount) :=
+  value_is_spent_output_amount H C txin p (parseInMap_valueInv C O net txin.prevIndex s p rest hp) hv
 
 end Buidl.Props.C11
